@@ -701,6 +701,13 @@ def string_fragment(report, uri_consts, shape_consts):
              {'target_str': 'str', 'first_index': 'int'}, 'int'),
             ("shexer/io/graph/yielder/nt_triples_yielder.py", 'NtTriplesYielder', '_look_for_tokens', 'nt_look_for_tokens',
              {'str_line': 'str'}, 'strlist'),
+            # from a token to the model object (the classification both line readers end with)
+            ("shexer/utils/uri.py", None, 'parse_literal', 'parse_literal', {'an_elem': 'str', 'base_namespace': 'optstr'}, 'strpair'),
+            ("shexer/utils/uri.py", None, 'parse_unquoted_literal', 'parse_unquoted_literal', {'an_elem': 'str'}, 'strpair'),
+            ("shexer/utils/triple_yielders.py", None, 'tune_subj', 'tune_subj', {'a_token': 'str', 'raise_error_if_no_corners': 'bool'}, 'obj'),
+            ("shexer/utils/triple_yielders.py", None, 'tune_prop', 'tune_prop', {'a_token': 'str', 'raise_error_if_no_corners': 'bool'}, 'obj'),
+            ("shexer/utils/triple_yielders.py", None, 'tune_token', 'tune_token',
+             {'a_token': 'str', 'allow_untyped_numbers': 'bool', 'raise_error_if_no_corners': 'bool', 'base_namespace': 'optstr'}, 'obj'),
             # the streaming Turtle reader: comment removal and the scans of its tokenizer
             ("shexer/io/graph/yielder/big_ttl_triples_yielder.py", 'BigTtlTriplesYielder', '_remove_comments_if_needed', 'ttl_remove_comments_if_needed',
              {'str_line': 'str'}, 'str'),
@@ -734,18 +741,24 @@ def string_fragment(report, uri_consts, shape_consts):
                         if al.asname is None and al.name in funcs.get('*', {}):
                             local.setdefault(al.name, funcs['*'][al.name])
             local['__class__'] = cls
+            local['__imports__'] = {al.asname or al.name: node.module or '' for node in tree.body if isinstance(node, ast.ImportFrom) for al in node.names}
+            for node in tree.body:      # `_is_integer(x)`: exactly `x % 1.0 == 0`
+                if isinstance(node, ast.FunctionDef) and node.name == '_is_integer' and len(node.args.args) == 1 and node.args.args[0].arg == 'float_number' \
+                        and "\n".join(ast.unparse(b) for b in node.body) == XS.IS_INTEGER_BODY:
+                    local['_is_integer'] = ('float_is_integer',)
             local.update(more_consts)
             ok_tr = XS.translate(out, report, assumptions, 'S.' + lname, fn, types, ret, local)
             plain = lambda t: t in ('str', 'bool', 'int', 'strdict', 'optstr')
             if ok_tr and cls is not None and ret in ('str', 'bool', 'int', 'optstr') and "(resolve :" not in out[-1]:
                 funcs.setdefault((rel, cls), {})['self.' + pyname] = ('func', lname, [(a.arg, types[a.arg]) for a in fn.args.args if a.arg != 'self'], ret, {},
                                                                      [k for k in types if k.startswith('self.')], "(fuel : Nat)" in out[-1])
-            if ok_tr and cls is None and ret in ('str', 'bool', 'int', 'optstr') \
-                    and "(resolve :" not in out[-1] and all(plain(t) for t in types.values()):
+            if ok_tr and cls is None and ret in ('str', 'bool', 'int', 'optstr', 'strpair', 'obj') \
+                    and all(plain(t) for t in types.values()):
                 nd = len(fn.args.defaults)
                 dflt = {a.arg: d for a, d in zip(fn.args.args[len(fn.args.args) - nd:], fn.args.defaults)
-                        if isinstance(d, ast.Constant) and isinstance(d.value, (bool, str))}
-                entry = ('func', lname, [(a.arg, types[a.arg]) for a in fn.args.args], ret, dflt, [], "(fuel : Nat)" in out[-1])
+                        if isinstance(d, ast.Constant) and (isinstance(d.value, (bool, str)) or d.value is None)}
+                entry = ('func', lname, [(a.arg, types[a.arg]) for a in fn.args.args], ret, dflt, [], "(fuel : Nat)" in out[-1],
+                         "(resolve :" in out[-1], "(floatOf :" in out[-1])
                 funcs.setdefault(rel, {})[pyname] = entry
                 funcs.setdefault('*', {})[pyname] = entry
         except (Untranslatable, OSError, SyntaxError) as e:
@@ -767,7 +780,7 @@ def string_fragment(report, uri_consts, shape_consts):
                 args.append("s%d" % i)
                 i += 1
             elif t == 'bool':
-                args.append("flag")
+                args.append("flag" if "flag" not in args else "(num != 0)")
             elif t == 'optstr':
                 args.append("opt")
             elif t == 'strlist':
@@ -776,13 +789,17 @@ def string_fragment(report, uri_consts, shape_consts):
                 args.append("(pairs rest)")
             elif t == 'int':
                 args.append("num")
-        call = "%s %s%s%s" % (lname, "resolve " if "(resolve :" in header else "", "fuel " if "(fuel : Nat)" in header else "", " ".join(args))
+        call = "%s %s%s%s%s" % (lname, "resolve " if "(resolve :" in header else "", "floatOf " if "(floatOf :" in header else "",
+                                "fuel " if "(fuel : Nat)" in header else "", " ".join(args))
         arms.append('  | "%s", %s => some (%s)' % (lname, pat, call if ret == 'optstr' else "(%s).map fun b => some (if b then ['1'] else ['0'])" % call if ret == 'bool'
                                                   else "(%s).map fun i => some (toString i).toList" % call if ret == 'int'
-                                                  else "(%s).map fun l => some (l.flatMap fun t => t ++ [Char.ofNat 1])" % call if ret == 'strlist' else "(%s).map some" % call))
+                                                  else "(%s).map fun l => some (l.flatMap fun t => t ++ [Char.ofNat 1])" % call if ret == 'strlist'
+                                                  else "(%s).map fun p => some (p.1 ++ [Char.ofNat 1] ++ p.2)" % call if ret == 'strpair'
+                                                  else "(%s).map fun o => some (showObj o)" % call if ret == 'obj' else "(%s).map some" % call))
     out.append("def pairs : List (List Char) → List (List Char × List Char)\n  | k :: v :: rest => (k, v) :: pairs rest\n  | _ => []\n")
+    out.append("def showObj : PyOps.Obj → List Char\n  | .iri c => 'I' :: c\n  | .bnode c => 'B' :: c\n  | .prop c => 'P' :: c\n  | .lit c t => 'L' :: c ++ [Char.ofNat 1] ++ t\n")
     out.append("/-- dispatch by name for `strdriver` (the translator's correspondence check) -/")
-    out.append("def dispatch (resolve : List Char → List Char → List Char) (name : String) (strs : List (List Char)) (flag : Bool)")
+    out.append("def dispatch (resolve : List Char → List Char → List Char) (floatOf : List Char → Option Bool) (name : String) (strs : List (List Char)) (flag : Bool)")
     out.append("    (opt : Option (List Char)) (num : Int := 0) (fuel : Nat := 0) : Option (Except PyExc (Option (List Char))) :=")
     out.append("  match name, strs with")
     out += arms
